@@ -33,10 +33,12 @@ SeedsOf(by, Qm) == UNION {{by[K(i)].seeds[K(j)] : j \in Qm \ {i}} : i \in Qm}
 SessionOK(e) ==
   LET Qm == SeqSet(e.ids) IN
   /\ FamilyOK(e.by, Qm)
+  /\ e.after = e.by                                                           \* deriving sub-contexts leaves the session context unchanged
   /\ \A n \in 1..Len(e.subs) :
        LET sb == e.subs[n]  Sq == SeqSet(sb.quorum) IN
        /\ Sq \subseteq Qm /\ FamilyOK(sb.by, Sq)
        /\ \A i \in Sq : sb.by[K(i)].sid = e.by[K(i)].sid                      \* the session identifier is inherited
+       /\ \A i \in Sq : K(i) \in DOMAIN sb.again => sb.again[K(i)] = sb.by[K(i)]  \* deriving again (later, alone) gives the same context
        /\ \A i \in Sq : sb.by[K(i)].tr # e.by[K(i)].tr                         \* the transcript binds the sub-quorum
        /\ SeedsOf(sb.by, Sq) \cap SeedsOf(e.by, Qm) = {}                       \* fresh seeds
        /\ \A m \in 1..Len(e.subs) : m # n =>
